@@ -201,6 +201,12 @@ pub fn gen_proj(rng: &mut Rng, o: &GenOpts) -> Proj {
             PLayers { name: format!("Cerramiento {}", i + 1), thickness: ms.iter().map(|_| r2(rng, 0.01, 0.3)).collect(), materials: ms }
         })
         .collect();
+    // names that differ only in case are different names in BDL
+    let mut layers = layers;
+    if rng.chance(1, 3) {
+        let twin = PLayers { name: layers[0].name.to_uppercase(), materials: layers[0].materials.clone(), thickness: layers[0].thickness.iter().map(|t| t + 0.01).collect() };
+        layers.push(twin);
+    }
     let glasses: Vec<PGlass> = (0..rng.range(1, 2)).map(|i| PGlass { name: format!("Vidrio {}", i + 1), u: r2(rng, 0.8, 5.7), shading_coef: r2(rng, 0.3, 0.95) }).collect();
     let frames: Vec<PFrame> = (0..rng.range(1, 2)).map(|i| PFrame { name: format!("Marco {}", i + 1), u: r2(rng, 1.0, 5.7), abs: r2(rng, 0.2, 0.9) }).collect();
     let gaps: Vec<PGap> = (0..rng.range(1, 3))
